@@ -28,6 +28,10 @@ s += '''
 // Sort: called with n >= 2 it returns a permutation of 0..n-1.
 var VerifOrder func(n int) []int
 
+// VerifFileOrder, when non-nil, picks the iteration order of spok's own maps in file/file.go
+// (see overlay/patch_file.py): called with n >= 2 it returns a permutation of 0..n-1.
+var VerifFileOrder func(n int) []int
+
 func verifPermute[T any](vs []*vertex[T]) []*vertex[T] {
 	for i := 1; i < len(vs); i++ { // insertion sort by creation order (no new imports in an overlay)
 		for j := i; j > 0 && vs[j].seq < vs[j-1].seq; j-- {
